@@ -11,7 +11,8 @@ NAMES = ["P:default_node_root", "P:default_encoding", "P:explicit_zero_root", "P
          "P:default_view_root", "P:default_ctor"]
 RULE = ("random types (vectors / bitvectors / byte vectors with non-power-of-two chunk counts favoured); observables: "
         "root of default_node(), encoding and root of Type.default(None), root of the explicitly constructed zero "
-        "value, Type() where supported, and the root at every gindex of fixed structure up to depth 3; "
+        "value, Type() where supported, and the root at every gindex of fixed structure up to depth 3; for unions also "
+        "Union(selector=k) with the value omitted against the explicit zero value of option k (encoding, root, tree shape); "
         "non-trivial = composite type")
 
 
@@ -51,6 +52,31 @@ def fixed_gindices(t):
     return sorted(set(out))
 
 
+def shape_differs(a, b, depth=7):
+    """the two trees differ in root or in where they can be navigated (down to `depth` levels)"""
+    if a.merkle_root() != b.merkle_root():
+        return "root"
+    if a.is_leaf() != b.is_leaf():
+        return "navigability"
+    if a.is_leaf() or depth == 0:
+        return None
+    return shape_differs(a.get_left(), b.get_left(), depth - 1) or shape_differs(a.get_right(), b.get_right(), depth - 1)
+
+
+def omitted_union_value(t, C):
+    """Union(selector=k) with the value left out = Union(selector=k, value=<zero value of option k>)"""
+    for sel in range(union_count(t)):
+        o = union_opt(t, sel)
+        a = C(selector=sel)
+        b = C(selector=sel, value=None if o is None else to_py(o, zero_value(o)))
+        if bytes(a.encode_bytes()) != bytes(b.encode_bytes()):
+            return "Union(selector=%d) with the value omitted encodes differently from the explicit zero value" % sel
+        d = shape_differs(a.get_backing(), b.get_backing())
+        if d:
+            return "Union(selector=%d) with the value omitted differs in %s from the explicit zero value" % (sel, d)
+    return None
+
+
 def build(inp):
     t = inp["t"]
     C = T(t)
@@ -73,6 +99,7 @@ def build(inp):
         ctor = attempt(lambda: C().hash_tree_root(), anyerr=True)
     case = Case(inp, "(%s, %s)" % (ty_coq(t), clist(cN(g) for g in gs)), obs, NAMES[:4], nontrivial=not is_basic(t), kind=t[0])
     case.extra = [dvr, ctor]
+    case.union_why = attempt(lambda: omitted_union_value(t, C), anyerr=True) if t[0] == "union" else None
     return case
 
 
@@ -84,4 +111,6 @@ def direct_violation(c):
         return "Type.default(None).hash_tree_root() differs from default_node() root"
     if ctor != c.obs[0]:
         return "Type() differs from default_node() root: %r" % (ctor,)
+    if c.union_why is not None:
+        return "%s" % (c.union_why,)
     return None
